@@ -111,21 +111,21 @@ theorem wb_noOpen {t : List Instr} (hw : WB t) (hr : Instr.runlock ∉ t) : ∀ 
       | true => exact absurd (List.mem_cons_of_mem _ (ha hb)) hr
     · exact ih ht (fun hm => hr (List.mem_cons_of_mem _ hm)) j hj
 
-theorem inv_init (g : Bool) (capacity nthreads : Nat) : Inv g (Sys.init capacity nthreads) := by
-  have hp : pending (Sys.init capacity nthreads) = [] := by
-    unfold pending Sys.init
+theorem inv_init (g : Bool) (clr : Bool) (capacity nthreads : Nat) : Inv g (Sys.initCfg clr capacity nthreads) := by
+  have hp : pending (Sys.initCfg clr capacity nthreads) = [] := by
+    unfold pending Sys.initCfg
     induction nthreads with
     | zero => rfl
     | succ n ih => simp [List.replicate_succ] at ih ⊢
   refine ⟨?_, ?_⟩
   · rw [hp]
-    refine ⟨by simp [Sys.init, Shared.new], by simp [Sys.init, Shared.new], by simp [Sys.init, Shared.new],
-      by simp, by simp [Sys.init, Shared.new], by simp, by simp [Sys.init, Shared.new], ?_,
-      by simp [Sys.init, Shared.new], by simp [Sys.init, Shared.new], by simp [Sys.init, Shared.new], by simp⟩
+    refine ⟨by simp [Sys.initCfg, Shared.newCfg], by simp [Sys.initCfg, Shared.newCfg], by simp [Sys.initCfg, Shared.newCfg],
+      by simp, by simp [Sys.initCfg, Shared.newCfg], by simp, by simp [Sys.initCfg, Shared.newCfg], ?_,
+      by simp [Sys.initCfg, Shared.newCfg], by simp [Sys.initCfg, Shared.newCfg], by simp [Sys.initCfg, Shared.newCfg], by simp⟩
     intro id hpos
-    simp [refsP, Sys.init, Shared.new] at hpos
+    simp [refsP, Sys.initCfg, Shared.newCfg] at hpos
   · intro t ht
-    simp only [Sys.init, List.mem_replicate] at ht
+    simp only [Sys.initCfg, List.mem_replicate] at ht
     rw [ht.2]; trivial
 
 theorem flatten_set_perm' {α : Type} (ts : List (List α)) (t : Nat) (old new : List α)
@@ -232,6 +232,6 @@ theorem inv_step {g : Bool} {s s' : Sys} {a : Act} (h : Inv g s) (hs : sysStep g
 
 theorem inv_reachable {g : Bool} {s : Sys} (h : Reachable g s) : Inv g s := by
   induction h with
-  | init c n => exact inv_init g c n
+  | init clr c n => exact inv_init g clr c n
   | step a _ hs ih => exact inv_step ih hs
 end GoLevel.CacheM
